@@ -1,13 +1,212 @@
 /-
-C18 — unit-changing utilities conserve amounts (work in progress: first theorem only).
+C18 — unit-changing utilities conserve amounts (currency, disaggregation, policy year, premium).
+Only property theorems live here (helper lemmas: `Lemmas/Units.lean`; model: `Model/Units.lean`;
+executable predicates run on the implementation's output: `Spec/C18.lean`).
 -/
-import Bermuda.Model.Units
+import Bermuda.Lemmas.Units
 import Bermuda.Spec.C18
 namespace Bermuda.Properties.C18
 open Bermuda Bermuda.Units
 
-theorem premium_refuses_zero_resolution (vol : Rat) (wp ep : List Rat) (wres eres : Nat) (off : Int) (c : Bool) :
-    programEarnedPremium vol wp wres ep eres 0 off c = .error .other := by
+/-! ### 1. convert_currency -/
+
+/-- the code's regenerated `CURRENCY_FIELDS` table is exactly the list of premium and loss amounts
+the Spec predicate uses (a table edit breaks this proof) -/
+theorem currencyFields_pinned : Generated.Currency.currencyFields = Spec.C18.moneyFields := by decide
+
+/-- **currency_spec.** When `convert_currency` succeeds there is a bijection between input and
+output cells (`tin` is the input, `tout` the output, each up to order) such that every pair is
+`Converted`: a cell already in the target currency is untouched, any other cell is
+`convertCell c rate target` with `rate` the table entry of the cell's own currency
+(`convertCell_spec` below says what that is, field by field). -/
+theorem currency_spec {t out : List Cell} {target : String} {rates : List (String × Num)}
+    (h : convertCurrency t target rates = .ok out) :
+    ∃ tin tout, tin.Perm t ∧ tout.Perm out ∧ Forall2 (Converted target rates) tin tout := by
+  unfold convertCurrency at h
+  cases hm : (Triangle.slices t).mapM (convertSlice target rates) with
+  | error e => simp [hm, bind, Except.bind] at h
+  | ok parts =>
+    simp only [hm, bind, Except.bind] at h
+    refine ⟨(Triangle.slices t).flatMap (·.2), parts.flatten, slices_flatten_perm t,
+      (ofCells_perm' h).symm, ?_⟩
+    rw [List.flatMap_def]
+    apply Forall2.flatten
+    apply Forall2.map_left
+    exact (mapM_ok_forall2 hm).imp fun sl part hsl hp => convertSlice_ok hsl hp
+
+/-- a converted cell, field by field: class and dates unchanged, metadata equal except
+`currency = target`, the same keys in the same order, exactly the currency fields multiplied by the
+rate (`mulNum_value`: same shape, every number times the rate), every other field identical -/
+theorem currency_cell_spec {c o : Cell} {rate : Num} {target : String}
+    (h : convertCell c rate target = .ok o) :
+    o.kind = c.kind ∧ o.ps = c.ps ∧ o.pe = c.pe ∧ o.ev = c.ev ∧ o.prev = c.prev ∧
+    o.md = { c.md with currency := some target } ∧
+    Forall2 (fun kv kv' => kv'.1 = kv.1 ∧
+      (if Generated.Currency.currencyFields.contains kv.1 then Val.mulNum kv.2 rate = .ok kv'.2
+       else kv'.2 = kv.2)) c.values o.values :=
+  convertCell_spec h
+
+/-- `v * rate` numerically: the value is not `None`, the shape is kept, every number is multiplied -/
+theorem mulNum_value {v v' : Val} {r : Num} (h : Val.mulNum v r = .ok v') :
+    v ≠ .none ∧ v'.shape = v.shape ∧
+    Spec.C18.vdata v' = (Spec.C18.vdata v).map (· * r.toRat) :=
+  mulNum_data h
+
+/-- the cell count is unchanged -/
+theorem currency_count {t out : List Cell} {target : String} {rates : List (String × Num)}
+    (h : convertCurrency t target rates = .ok out) : out.length = t.length := by
+  obtain ⟨tin, tout, h1, h2, h3⟩ := currency_spec h
+  rw [← h2.length_eq, ← h3.length_eq, h1.length_eq]
+
+/-- every cell of the result is in the target currency -/
+theorem currency_sets_target {t out : List Cell} {target : String} {rates : List (String × Num)}
+    (h : convertCurrency t target rates = .ok out) : ∀ o ∈ out, o.md.currency = some target := by
+  obtain ⟨tin, tout, h1, h2, h3⟩ := currency_spec h
+  intro o ho
+  obtain ⟨c, _, hco⟩ := h3.mem_right (h2.mem_iff.mpr ho)
+  rcases hco with ⟨hc, rfl⟩ | ⟨cur, rate, _, _, _, hconv⟩
+  · exact hc
+  · rw [(convertCell_spec hconv).2.2.2.2.2.1]
+
+/-- refusal 1: a cell without currency anywhere in the triangle -/
+theorem currency_refuses_missing_currency {t : List Cell} {target : String}
+    {rates : List (String × Num)} {c : Cell} (hc : c ∈ t) (hn : c.md.currency = none) :
+    ∃ e, convertCurrency t target rates = .error e := by
+  obtain ⟨sl, hsl, hmd, _⟩ := slices_fst_mem hc
+  have : convertSlice target rates sl = .error .valueError := by
+    unfold convertSlice; rw [hmd, hn]
+  obtain ⟨e, he⟩ := mapM_error_of_mem hsl this
+  exact ⟨e, by unfold convertCurrency; simp [he, bind, Except.bind]⟩
+
+/-- refusal 2: a cell in a foreign currency for which the table has no rate -/
+theorem currency_refuses_missing_rate {t : List Cell} {target cur : String}
+    {rates : List (String × Num)} {c : Cell} (hc : c ∈ t) (hcur : c.md.currency = some cur)
+    (hne : cur ≠ target) (hr : rates.find? (·.1 == cur) = none) :
+    ∃ e, convertCurrency t target rates = .error e := by
+  obtain ⟨sl, hsl, hmd, _⟩ := slices_fst_mem hc
+  have : convertSlice target rates sl = .error .valueError := by
+    unfold convertSlice; rw [hmd, hcur]; simp [hne, hr]
+  obtain ⟨e, he⟩ := mapM_error_of_mem hsl this
+  exact ⟨e, by unfold convertCurrency; simp [he, bind, Except.bind]⟩
+
+-- OPEN currency_refusal_class
+-- the error of both refusals is `ValueError` whenever no currency-field value is `None` and the
+-- cell classes are consistent (the slice-level error IS `.valueError`, see the two proofs above;
+-- what is missing is that an EARLIER slice cannot fail with another class):
+--   (∀ c ∈ t, ∀ kv ∈ c.values, kv.2 ≠ .none) → kindsConsistent t →
+--   (∃ c ∈ t, c.md.currency = none ∨ (foreign ∧ no rate)) →
+--   convertCurrency t target rates = .error .valueError
+
+/-- non-vacuity: a one-cell EUR triangle converted to USD at 5/4 — the loss is multiplied, the
+claim count is not, the currency is set -/
+def exMd (cur : String) : Metadata := { currency := some cur }
+def exCell : Cell :=
+  { kind := .cumulative, ps := Date.mk 2020 1 1, pe := Date.mk 2020 12 31, ev := Date.mk 2020 12 31,
+    values := [("paid_loss", Val.int 100), ("open_claims", Val.int 7)], md := exMd "EUR" }
+
+example : convertCurrency [exCell] "USD" [("EUR", .flt (5/4))] =
+    .ok [{ exCell with values := [("paid_loss", .flt 125), ("open_claims", .int 7)], md := exMd "USD" }] := by
+  decide +kernel
+
+example : ∃ e, convertCurrency [exCell] "USD" [("GBP", .flt 2)] = .error e :=
+  currency_refuses_missing_rate (c := exCell) (cur := "EUR") (by simp) rfl (by decide) (by decide)
+
+/-! ### 2. disaggregate_experience -/
+
+/-- **disagg_sum.** For any number `v` of a cell value and any weights whose total is not zero,
+the renormalised weights (`w / Σw`, what `_disaggregate_experience_slice` computes over the
+observable sub-periods) split `v` exactly: Σₖ v·(wₖ/Σw) = v. -/
+theorem disagg_sum (v : Rat) {ws : List Rat} (h : ws.sum ≠ 0) :
+    ((renorm ws).map (v * ·)).sum = v := by
+  rw [sum_map_mul_left, renorm_sum h, mul_one]
+
+/-- renormalised weights sum to 1 -/
+theorem disagg_weights_sum_one {ws : List Rat} (h : ws.sum ≠ 0) : (renorm ws).sum = 1 :=
+  renorm_sum h
+
+/-- bridge to the model: the k-th part `_weight_cell_values` produces for a value is that value's
+numbers times the k-th weight (scalars and 1-d arrays; together with `disagg_sum` every number of
+every field adds up over the sub-periods) -/
+theorem disagg_parts {v : Val} {ws : List Rat} {parts : List Val}
+    (h : weightValue v ws = .ok parts) :
+    parts.map Spec.C18.vdata = ws.map fun w => (Spec.C18.vdata v).map (· * w) :=
+  weightValue_data h
+
+example : ((renorm [1/4, 1/2]).map ((120 : Rat) * ·)).sum = 120 := disagg_sum 120 (by decide +kernel)
+
+-- OPEN disagg_spec
+-- the executable predicate holds on the model's own output for a semi-regular non-incremental
+-- triangle t with scalar / 1-d values:
+--   disaggregateExperience t res ws fields = .ok out →
+--   Spec.C18.disaggSpec res (fields.getD defaultInterpolationFields) 0 t out = true
+-- (needs: the observable sub-periods of distinct cells are disjoint and sorted, i.e. facts about
+--  `addMonths` on month-aligned dates)
+
+-- OPEN aggregate_disagg
+--   aggregate (period length of t) (disaggregateExperience t res ws fields) = t.select fields
+-- (on cells with an observable sub-period; `aggregate` is modelled under C08; checked on the
+--  implementation by Spec.C18.aggBackSpec in every run)
+
+/-! ### 3. accident_quarter_to_policy_year -/
+
+/-- **policyYear_basis.** every cell of the result is Policy-basis -/
+theorem policyYear_basis {t out : List Cell} {len : Nat} {origin : Date} {cont : Bool}
+    (h : aqToPolicyYear t len origin cont = .ok out) :
+    ∀ o ∈ out, o.md.riskBasis = some "Policy" := by
+  unfold aqToPolicyYear at h
+  refine foldlM_invariant (fun l : List Cell => ∀ o ∈ l, o.md.riskBasis = some "Policy") ?_ (by simp) h
+  intro b sl b' hb hstep
+  cases hs : aqToPolicyYearSlice sl.2 len origin cont with
+  | error e => simp [hs, bind, Except.bind] at hstep
+  | ok r =>
+    simp only [hs, bind, Except.bind] at hstep
+    have hr : ∀ o ∈ r, o.md.riskBasis = some "Policy" := by
+      unfold aqToPolicyYearSlice at hs
+      cases hc : aqToPolicyYearCells sl.2 len origin cont with
+      | error e => simp [hc, bind, Except.bind] at hs
+      | ok tri =>
+        simp only [hc, bind, Except.bind] at hs
+        exact deriveMetadata_riskBasis hs
+    intro o ho
+    have := (ofCells_perm' hstep).mem_iff.mp ho
+    rcases List.mem_append.mp this with h1 | h1
+    · exact hb o h1
+    · exact hr o h1
+
+/-- **policyYear_conserves_partial.** The share table as the code computes it: for every accident
+period the shares over the policy years sum to 1 — unless the raw total is 0, in which case they
+sum to 0 (the contract "row sums positive", `Spec.C18.policyCovered`). Hence an amount `v` of an
+accident period is redistributed without loss: Σ_py v·share = v.
+Missing for the full statement (OPEN below): carrying this through the per-evaluation-date
+accumulation of `policyCell`. -/
+theorem policyYear_conserves_partial {ps pys : List (Date × Date)} {len : Nat} {cont : Bool}
+    {e : (Date × Date) × List ((Date × Date) × Rat)} (he : e ∈ aqShares ps pys len cont) (v : Rat)
+    (hpos : (e.2.map (·.2)).sum ≠ 0) :
+    ((e.2.map (·.2)).map (v * ·)).sum = v := by
+  rw [sum_map_mul_left]
+  rcases aqShares_row_sum e he with h | h
+  · rw [h, mul_one]
+  · exact absurd h hpos
+
+-- OPEN policyYear_conserves
+--   aqToPolicyYear t len origin cont = .ok out → Spec.C18.policyCovered t len origin cont →
+--   Spec.C18.policyYearSpec 0 t out = true
+-- (per slice, evaluation date and field the total is unchanged)
+
+/-! ### 4. program_earned_premium -/
+
+/-- `output_resolution = 0` is outside the model (the code loops forever) -/
+theorem premium_refuses_zero_resolution (vol : Rat) (wp ep : List Rat) (wres eres : Nat) (off : Int)
+    (c : Bool) : programEarnedPremium vol wp wres ep eres 0 off c = .error .other := by
   simp [programEarnedPremium]
+
+-- OPEN premium_sums
+--   programEarnedPremium vol wp wres ep eres ores off c = .ok (w, e) → w.sum = vol ∧ e.sum = vol
+-- OPEN premium_nonneg
+--   0 ≤ vol → (∀ x ∈ wp, 0 ≤ x) → (∀ x ∈ ep, 0 ≤ x) →
+--   programEarnedPremium … = .ok (w, e) → (∀ x ∈ w, 0 ≤ x) ∧ (∀ x ∈ e, 0 ≤ x)
+-- OPEN premium_earned_le_written
+--   same hypotheses → ∀ k, ((e.take k).sum ≤ (w.take k).sum)
+--   (convolution bound Σ_{n≤m} w_n·E(m−n) ≤ Σ_{n≤m} w_n with E the cumulative earning fraction ≤ 1)
 
 end Bermuda.Properties.C18
